@@ -152,13 +152,16 @@ func checkKernel(w *load.World, c *core.Collector, f *asmFunc, props []string) {
 	}
 	f = normaliseAddressing(f, px, py, cnt)
 	at = func(i int) string { return fmt.Sprintf("%s:%d", rel, f.ins[i].line) }
+	horizontalSum(w, c, f, props)
 	// every instruction is one the two analyses give a meaning to; in particular nothing touches the
 	// floating-point control state (LDMXCSR: flush-to-zero changes the products of denormal inputs)
 	known := map[string]bool{"MOVQ": true, "MOVL": true, "LEAQ": true, "ADDQ": true, "SUBQ": true, "INCQ": true, "DECQ": true, "NEGQ": true,
 		"SHRQ": true, "SHLQ": true, "ANDQ": true, "XORQ": true, "XORL": true, "CMPQ": true, "TESTQ": true, "JMP": true, "RET": true,
 		"VXORPS": true, "VMOVUPS": true, "VMOVAPS": true, "VMOVSS": true, "MOVSS": true, "VFMADD231PS": true, "VFMADD231SS": true,
 		"VSUBPS": true, "VSUBSS": true, "VMULPS": true, "VMULSS": true, "VADDPS": true, "VADDSS": true, "VHADDPS": true,
-		"VEXTRACTF128": true, "VZEROUPPER": true, "PCALIGN": true}
+		"VEXTRACTF128": true, "VZEROUPPER": true, "PCALIGN": true,
+		// lane shuffles between registers (the horizontal-sum clause gives them their meaning)
+		"VMOVSHDUP": true, "VMOVSLDUP": true, "VMOVHLPS": true, "VMOVLHPS": true}
 	var strange []string
 	for i, in := range f.ins {
 		if known[in.op] || (len(in.op) >= 2 && in.op[0] == 'J') {
@@ -1442,4 +1445,229 @@ func normaliseAddressing(f *asmFunc, px, py, cnt string) *asmFunc {
 		})
 	}
 	return f
+}
+
+// horizontalSum: the last straight-line block of a kernel folds the accumulators into the one
+// float that is returned. Lane model: every vector register is eight lanes, each a multiset of
+// "lane j of accumulator R at the block's entry"; 128-bit VEX operations work on the low four
+// lanes and clear the upper four. Required at the store of the result: lane 0 holds every lane of
+// every packed accumulator exactly once and lane 0 of every scalar accumulator exactly once —
+// whatever mixture of VADDPS, VHADDPS, VEXTRACTF128 and shuffles (VMOVSHDUP, VMOVHLPS, …) got
+// it there.
+func horizontalSum(w *load.World, c *core.Collector, f *asmFunc, props []string) {
+	rel := strings.TrimPrefix(strings.TrimPrefix(f.file, w.Dir), "/")
+	key := f.name + ":horizontal-sum"
+	// accumulators and their width
+	wide, packed, scalar := map[string]bool{}, map[string]bool{}, map[string]bool{}
+	num := func(r string) string { return strings.TrimLeft(r, "XY") }
+	for _, in := range f.ins {
+		if !strings.HasPrefix(in.op, "VFMADD") || len(in.args) == 0 {
+			continue
+		}
+		d := in.args[len(in.args)-1]
+		switch {
+		case strings.HasSuffix(in.op, "SS"):
+			scalar[num(d)] = true
+		case strings.HasPrefix(d, "Y"):
+			wide[num(d)] = true
+		default:
+			packed[num(d)] = true
+		}
+	}
+	// the final block: from the last branch target or jump before RET
+	end := -1
+	for i, in := range f.ins {
+		if in.op == "RET" {
+			end = i
+		}
+	}
+	if end < 0 {
+		c.Add("ASM", key, core.Undecided, rel, "no RET", props...)
+		return
+	}
+	start := 0
+	for _, idx := range f.label {
+		if idx <= end && idx > start {
+			start = idx
+		}
+	}
+	for i := start; i < end; i++ {
+		if op := f.ins[i].op; op == "JMP" || (len(op) >= 2 && op[0] == 'J') {
+			start = i + 1
+		}
+	}
+	type lane map[string]int
+	regs := map[string][]lane{}
+	get := func(r string) []lane {
+		n := num(r)
+		if v, ok := regs[n]; ok {
+			return v
+		}
+		v := make([]lane, 8)
+		for j := range v {
+			v[j] = lane{fmt.Sprintf("%s.%d", n, j): 1}
+		}
+		regs[n] = v
+		return v
+	}
+	add := func(a, b lane) lane {
+		o := lane{}
+		for k, v := range a {
+			o[k] += v
+		}
+		for k, v := range b {
+			o[k] += v
+		}
+		return o
+	}
+	zero := func() lane { return lane{} }
+	set := func(r string, v []lane) {
+		n := num(r)
+		out := make([]lane, 8)
+		for j := 0; j < 8; j++ {
+			if j < len(v) && v[j] != nil {
+				out[j] = v[j]
+			} else {
+				out[j] = zero()
+			}
+		}
+		if strings.HasPrefix(r, "X") {
+			for j := 4; j < 8; j++ {
+				out[j] = zero() // VEX.128 clears the upper half
+			}
+		}
+		regs[n] = out
+	}
+	isReg := func(a string) bool { _, ok := vreg(a); return ok }
+	var stored []lane
+	unknown := ""
+	for i := start; i <= end && unknown == ""; i++ {
+		in := f.ins[i]
+		a := in.args
+		allRegs := true
+		for _, x := range a {
+			if !isReg(x) && !strings.HasPrefix(x, "$") {
+				allRegs = false
+			}
+		}
+		switch {
+		case in.op == "RET" || in.op == "VZEROUPPER" || in.op == "PCALIGN":
+		case (in.op == "MOVSS" || in.op == "VMOVSS") && len(a) == 2 && isReg(a[0]) && !isReg(a[1]):
+			stored = get(a[0])
+		case in.op == "VXORPS" && len(a) == 3 && a[0] == a[1] && a[1] == a[2]:
+			set(a[2], make([]lane, 8))
+		case (in.op == "VADDPS") && len(a) == 3 && allRegs:
+			x, y := get(a[0]), get(a[1])
+			n := 8
+			if strings.HasPrefix(a[2], "X") {
+				n = 4
+			}
+			o := make([]lane, 8)
+			for j := 0; j < n; j++ {
+				o[j] = add(x[j], y[j])
+			}
+			set(a[2], o)
+		case in.op == "VADDSS" && len(a) == 3 && allRegs:
+			x, y := get(a[0]), get(a[1]) // Go order: src2, src1, dst: lane 0 = src1+src2, lanes 1..3 from src1
+			o := make([]lane, 8)
+			o[0] = add(x[0], y[0])
+			for j := 1; j < 4; j++ {
+				o[j] = y[j]
+			}
+			set(a[2], o)
+		case in.op == "VHADDPS" && len(a) == 3 && allRegs:
+			s2, s1 := get(a[0]), get(a[1])
+			o := make([]lane, 8)
+			halves := 1
+			if strings.HasPrefix(a[2], "Y") {
+				halves = 2
+			}
+			for h := 0; h < halves; h++ {
+				b := 4 * h
+				o[b+0] = add(s1[b+0], s1[b+1])
+				o[b+1] = add(s1[b+2], s1[b+3])
+				o[b+2] = add(s2[b+0], s2[b+1])
+				o[b+3] = add(s2[b+2], s2[b+3])
+			}
+			set(a[2], o)
+		case in.op == "VEXTRACTF128" && len(a) == 3 && isReg(a[1]) && isReg(a[2]):
+			s := get(a[1])
+			o := make([]lane, 8)
+			off := 0
+			if v, ok := imm(a[0]); ok && v == 1 {
+				off = 4
+			}
+			for j := 0; j < 4; j++ {
+				o[j] = s[off+j]
+			}
+			set(a[2], o)
+		case in.op == "VMOVSHDUP" && len(a) == 2 && allRegs:
+			s := get(a[0])
+			set(a[1], []lane{s[1], s[1], s[3], s[3]})
+		case in.op == "VMOVSLDUP" && len(a) == 2 && allRegs:
+			s := get(a[0])
+			set(a[1], []lane{s[0], s[0], s[2], s[2]})
+		case in.op == "VMOVHLPS" && len(a) == 3 && allRegs:
+			s2, s1 := get(a[0]), get(a[1]) // dst.low = high(src2), dst.high = high(src1)
+			set(a[2], []lane{s2[2], s2[3], s1[2], s1[3]})
+		case in.op == "VMOVLHPS" && len(a) == 3 && allRegs:
+			s2, s1 := get(a[0]), get(a[1]) // dst.low = low(src1), dst.high = low(src2)
+			set(a[2], []lane{s1[0], s1[1], s2[0], s2[1]})
+		case (in.op == "VMOVAPS" || in.op == "VMOVUPS") && len(a) == 2 && allRegs:
+			s := get(a[0])
+			set(a[1], append([]lane{}, s...))
+		default:
+			unknown = fmt.Sprintf("%s:%d: %s %s", rel, in.line, in.op, strings.Join(a, ", "))
+		}
+	}
+	if unknown != "" {
+		c.Add("ASM", key, core.Undecided, rel, "the final block has an instruction the lane model gives no meaning to: "+unknown, props...)
+		return
+	}
+	if stored == nil {
+		c.Add("ASM", key, core.Undecided, rel, "no store of the result found in the final block", props...)
+		return
+	}
+	var probs []string
+	want := func(n string, lanes int) {
+		for j := 0; j < lanes; j++ {
+			k := fmt.Sprintf("%s.%d", n, j)
+			if got := stored[0][k]; got != 1 {
+				probs = append(probs, fmt.Sprintf("lane %d of accumulator %s enters the result %d times", j, n, got))
+			}
+		}
+	}
+	var names []string
+	for n := range wide {
+		names = append(names, n)
+	}
+	sort.Strings(names)
+	for _, n := range names {
+		want(n, 8)
+	}
+	names = nil
+	for n := range packed {
+		if !wide[n] {
+			names = append(names, n)
+		}
+	}
+	sort.Strings(names)
+	for _, n := range names {
+		want(n, 4)
+	}
+	names = nil
+	for n := range scalar {
+		if !wide[n] && !packed[n] {
+			names = append(names, n)
+		}
+	}
+	sort.Strings(names)
+	for _, n := range names {
+		want(n, 1)
+	}
+	if len(probs) > 0 {
+		c.Add("ASM", key, core.Violation, rel, "the reduction does not add up every lane of every accumulator exactly once: "+strings.Join(probs, "; "), props...)
+	} else {
+		c.Add("ASM", key, core.OK, rel, fmt.Sprintf("%d packed and %d scalar accumulators folded lane by lane", len(wide)+len(packed), len(scalar)), props...)
+	}
 }
